@@ -50,6 +50,10 @@ type flowOpts struct {
 	emptyAMR     bool
 	emptyAud     bool
 	notLoggedIn  bool
+	// hostile values an EARLIER step stores for a LATER endpoint to process ("" = the ordinary value)
+	challengeValue string
+	nonceValue     string
+	stateValue     string
 }
 
 var flowClients = map[string]struct{ secret, redirect string }{
@@ -74,9 +78,15 @@ func (o flowOpts) query() url.Values {
 	q := url.Values{"client_id": {o.client}, "redirect_uri": {flowClients[o.client].redirect}, "response_type": {"code"}, "scope": {o.scopes}}
 	if !o.noState {
 		q.Set("state", "s+t a")
+		if o.stateValue != "" {
+			q.Set("state", o.stateValue)
+		}
 	}
 	if !o.noNonce {
 		q.Set("nonce", "n1")
+		if o.nonceValue != "" {
+			q.Set("nonce", o.nonceValue)
+		}
 	}
 	switch o.challenge {
 	case "S256":
@@ -87,6 +97,9 @@ func (o flowOpts) query() url.Values {
 		if o.noNonce { // method omitted = plain
 			q.Set("code_challenge_method", "plain")
 		}
+	}
+	if o.challengeValue != "" && q.Has("code_challenge") {
+		q.Set("code_challenge", o.challengeValue)
 	}
 	if o.maxAge {
 		q.Set("max_age", "3600")
@@ -379,6 +392,9 @@ func routeCases(w *emit.Writer, g *gen, n int) {
 		{ // a fresh, not yet redeemed code of a flow with its own optional parts
 			fo := g.flowOpts("")
 			fo.notLoggedIn = r.Chance(1, 10)
+			if r.Chance(1, 3) { // the authorization step stores a hostile value that the token / userinfo / end-session step meets later
+				g.hostileStored(&fo)
+			}
 			fresh := flow(f, st, rt, fo, false)
 			l.code, l.reqID, l.opts = fresh.code, fresh.reqID, fo
 		}
@@ -675,4 +691,27 @@ func (g *gen) reqObjQuery() []pair {
 		tok = sign(opfix.ECKey("client-pkjwt"), jose.ES256, "k1", payload)
 	}
 	return []pair{{k: "client_id", v: cid}, {k: "redirect_uri", v: flowClients[cid].redirect}, {k: "response_type", v: "code"}, {k: "scope", v: "openid"}, {k: "state", v: "s"}, {k: "request", v: tok}}
+}
+
+// hostileStored: over-long / odd-length / non-base64 / keyword code_challenge, nonce and state values stored by the
+// authorization request of a flow
+func (g *gen) hostileStored(o *flowOpts) {
+	r := g.r
+	b64s := func(n int) string { return g.opaqueString(n, 0, "") }
+	for k := 1 + r.IntN(2); k > 0; k-- {
+		switch r.IntN(4) {
+		case 0, 1:
+			o.challengeValue = drv.Pick(r, []string{b64s(44), b64s(48), b64s(64), b64s(100), b64s(4096), b64s(42), b64s(41), b64s(1), b64s(43) + "=", opfix.S256(verifier) + "A",
+				opfix.S256(verifier) + "=", " " + opfix.S256(verifier), strings.Repeat("=", 43), strings.Repeat("*", 43), "null", "\xff\xfe", g.junk(2), strings.Repeat("A", 70000)})
+			if o.challenge == "" {
+				o.challenge = drv.Pick(r, []string{"S256", "S256", "plain"})
+			}
+		case 2:
+			o.nonceValue = drv.Pick(r, []string{strings.Repeat("n", 5000), g.junk(3), "null", "\x00", " ", "%zz", strings.Repeat("ẞ", 300)})
+			o.noNonce = false
+		default:
+			o.stateValue = drv.Pick(r, []string{strings.Repeat("s", 5000), g.junk(3), "null", "a&b=c#d", "\r\nX: y", "%zz", strings.Repeat("K", 300)})
+			o.noState = false
+		}
+	}
 }
